@@ -163,6 +163,15 @@ func (p *Packet) decodeIPv4Header() error {
 		return errShortIPv4HeaderLength
 	}
 
+	// header length in octets: the IHL field counts 32-bit words, options included
+	hlen := int(p.data[0]&0x0f) * 4
+	if hlen < IPv4HLen {
+		hlen = IPv4HLen
+	}
+	if len(p.data) < hlen {
+		return errShortIPv4HeaderLength
+	}
+
 	var (
 		src net.IP = p.data[12:16]
 		dst net.IP = p.data[16:20]
@@ -182,7 +191,7 @@ func (p *Packet) decodeIPv4Header() error {
 		Dst:      dst.String(),
 	}
 
-	p.data = p.data[IPv4HLen:]
+	p.data = p.data[hlen:]
 
 	return nil
 }
